@@ -69,8 +69,8 @@ def run(tier, seed):
         for pos in (0, 1, 2):
             for bi, backend in enumerate(backends):
                 for autoprove in (True, False):
-                    if tier == "quick" and not ((mi + pos + bi) % 3 == 0 or (backend == "snarkjs" and pos == 2 and autoprove)): continue
-                    if not autoprove and pos != 2 and tier == "quick": continue
+                    pass
+                    pass
                     jobs.append((mode, action, coqmode, pos, backend, autoprove))
     with ThreadPoolExecutor(common.NPROC) as ex:
         results = list(ex.map(run_one, jobs))
